@@ -88,6 +88,62 @@ func specialFamilies() []*scaleFam {
 			{Prog: "function classify(n) { return match (n) { 0 => \"zero\", x => { if (x < 0) { return \"negative\" } return \"positive\" } } }\nfunction describe(n) { c = classify(n); return \"n is \" + c }\n{ print describe($) }\nEND { print classify(-5) }\n", Input: `[0, -1, 2]`},
 			{Prog: "function pick(n) { return match (n) { [a, b] => { for (v in [a, b]) { if (v > 1) { return v } } return \"small\" }, _ => \"other\" } }\n{ print pick($), \"after\" }\n", Input: `[[0, 1], [1, 5], 3]`},
 		}),
+		// ---- histories inside one run: a program site that is evaluated again after something specific happened
+		textFam("C11", "a call site whose receiver changes kind between two evaluations", []textProg{
+			{Prog: "BEGIN { seen = [] }\n$.reset { seen = 0 }\n{ seen.push($.id); print seen }\n", Input: `[{"id": 1}, {"id": 2, "reset": true}]`},
+			{Prog: "{ v = $; print v.length(); print v.upper() }\n", Input: `["ab", [1, 2], "cd", {"k": 1}, 5]`},
+			{Prog: "BEGIN { a = [3, 1, 2] }\n{ print a.sort(), a.contains($); if ($ == 2) { a = \"now a string\" } }\n", Input: `[1, 2, 3]`},
+			{Prog: "function call(x) { return x.pop() }\n{ print call($) }\n", Input: `[[1, 2], [3], "s"]`},
+		}),
+		textFam("C02", "$index written in one root and read in the next", []textProg{
+			{Prog: "$ == \"b\" { $index = 99 }\n{ print $index, $ }\n", Input: `["a", "b"] ["c", "d", "e"] "f" ["g", "h"]`},
+			{Prog: "{ print $index, $; $index++ }\nENDFILE { print $index }\n", Input: `[1, 2] [3, 4]`},
+		}),
+		textFam("C04", "a value printed while it contains itself, then repaired and written", []textProg{
+			{Prog: "{ $.self = $; print $; $.self = null }\n", Input: `{"b": 1}`, Root: true},
+			{Prog: "{ $[1] = $; print $, [$]; $[1] = [$[0]]; print $ }\n", Input: `[[1], 2]`, Root: true},
+			{Prog: "{ a = $; $.loop = a; printf(\"%v\\n\", $); $.loop = 0; b = $; b.again = $; print b; b.again = 1 }\n", Input: `{"k": [1]}`, Root: true},
+		}),
+		textFam("C05", "strings that arrive in a loop's second variable, used as numbers", []textProg{
+			{Prog: "{ for (k, v in $) { print k, v * 2, v - 1, v / 2, v % 4, - v, + v } for (v, k in [\"5\", \"6\", \"x\"]) { print v * 2, k + v } }\n", Input: `[{"a": "10", "b": "7", "c": "9"}, {"a": "1", "b": 2, "c": "3.5"}]`},
+			{Prog: "{ for (ch, off in $) { print ch * 2, off * 2, ch + off } }\n", Input: `["123", "9a7"]`},
+		}),
+		textFam("C06", "one + chain over records whose operand kinds change", []textProg{
+			{Prog: "{ print $.a + $.b + $.c + \"!\"; print $.a - $.b + $.c + \"\"; print $.a + $.b * $.c + $.a }\n", Input: `[{"a": "x", "b": 2, "c": 3}, {"a": 1, "b": 2, "c": 3}, {"a": 1, "b": 2, "c": 3}, {"a": 1, "b": "y", "c": 3}, {"a": 1, "b": 2, "c": "z"}, {"a": 1, "b": 2, "c": 3}, {"a": true, "b": null, "c": 3}, {"a": "x", "b": "y", "c": "z"}, {"a": 1, "b": 2, "c": 3}]`},
+			{Prog: "{ print $.a + $.b + $.c + \"!\"; print $.a - $.b + $.c + \"\"; print $.a + $.b * $.c + $.a }\n", Input: `[{"a": 1, "b": 2, "c": 3}, {"a": 1, "b": 2, "c": "z"}, {"a": 1, "b": "y", "c": 3}, {"a": 1, "b": 2, "c": 3}, {"a": "x", "b": 2, "c": 3}, {"a": 1, "b": 2, "c": 3}]`},
+		}),
+		textFam("C08", "one name read through call paths that bind it at different distances", []textProg{
+			{Prog: "function h() { return v }\nfunction viaPlain() { return h() }\nfunction viaParam(v) { return h() }\nBEGIN { v = 1; print viaPlain(); print viaParam(2); print viaPlain(); print viaParam(3) }\n"},
+			{Prog: "function h() { return v }\nfunction viaPlain() { return h() }\nfunction viaParam(v) { return h() }\nBEGIN { v = 1; print viaParam(2); print viaPlain(); print viaParam(3) }\n"},
+			{Prog: "function show() { return v }\nBEGIN { v = \"outer\" }\n{ print match ($) { 0 => show(), v => show() } }\n", Input: `[0, 5, 0, 6]`},
+			{Prog: "function show() { return v }\nBEGIN { v = \"outer\" }\n{ print match ($) { 0 => show(), v => show() } }\n", Input: `[5, 0]`},
+			{Prog: "function note(last) { if (last == 2) { next } return last }\nfunction probe() { return last is unknown }\n{ note($) }\n{ print $, probe() }\n", Input: `[1, 2, 3, 2, 4]`},
+			{Prog: "function note(last) { match (last) { 2 => { next }, other => { return other } } }\nfunction setit() { last = 7; return last }\nfunction probe() { return last is unknown }\n{ note($) }\n{ print $, setit(), probe() }\nEND { print last is unknown }\n", Input: `[1, 2, 3]`},
+		}),
+		textFam("C19", "cases whose alternatives bind different names, subjects in every order", func() []textProg {
+			var out []textProg
+			subj := []string{`"none"`, `[404, "boom"]`, `7`}
+			for _, perm := range [][3]int{{0, 1, 2}, {0, 2, 1}, {1, 0, 2}, {1, 2, 0}, {2, 0, 1}, {2, 1, 0}} {
+				in := "[" + subj[perm[0]] + ", " + subj[perm[1]] + ", " + subj[perm[2]] + ", " + subj[perm[0]] + "]"
+				out = append(out, textProg{Prog: "BEGIN { msg = \"outer\" }\n{ print match ($) { [code, msg], \"none\" => msg, _ => \"other\" } }\n", Input: in})
+			}
+			out = append(out,
+				textProg{Prog: "{ print match ($) { 0, n => n is unknown } }\n", Input: `[0, 5, 0]`},
+				textProg{Prog: "{ print match ($) { 0, n => n is unknown } }\n", Input: `[5, 0, 6]`},
+				textProg{Prog: "BEGIN { scale = 0 }\n{ print \"rec\", $index; print match ($) { [scale, \"mm\"], [len, \"cm\"] => len / scale } }\n", Input: `[[10, "mm"], [10, "cm"]]`},
+				textProg{Prog: "BEGIN { scale = 2 }\n{ print match ($) { [scale, \"mm\"], [len, \"cm\"] => len / scale, [a, b, c], [a, b] => a + b } }\n", Input: `[[10, "cm"], [1, 2], [1, 2, 3], [10, "mm"]]`})
+			return out
+		}()),
+		textFam("C13", "a regex literal and a string literal of the same spelling", []textProg{
+			{Prog: "$.kind == \"tsv\" && $.line ~ /\\t/ { tabbed++ }\n{ print $.id + \"\\t\" + $.kind }\nEND { print tabbed }\n", Input: `[{"id": 1, "kind": "csv", "line": "a,b"}, {"id": 2, "kind": "tsv", "line": "a\tb"}]`},
+			{Prog: "$.kind == \"tsv\" && $.line ~ /\\t/ { tabbed++ }\n{ print $.id + \"\\t\" + $.kind }\nEND { print tabbed }\n", Input: `[{"id": 2, "kind": "tsv", "line": "a\tb"}, {"id": 1, "kind": "csv", "line": "a,b"}]`},
+			{Prog: "BEGIN { s = \"\\\\\"; print s.length(), s; print \"a\\\\b\" ~ /\\\\/, \"ab\" ~ /\\\\/; t = \"\\\\\"; print t == s; print \"x\\ny\" ~ /\\n/, \"\\n\".length() }\n"},
+			{Prog: "BEGIN { print \"1d\" ~ /\\d/; x = \"\\d\"; print \"after\" }\n"},
+		}),
+		textFam("C16", "method names computed at one site, different from evaluation to evaluation", []textProg{
+			{Prog: "{ print $.v[$.how]() }\n", Input: `[{"v": "MiXed", "how": "lower"}, {"v": "MiXed", "how": "upper"}, {"v": "MiXed", "how": "length"}, {"v": "MiXed", "how": "lower"}, {"v": [3, 1], "how": "length"}, {"v": [3, 1], "how": "sort"}, {"v": "q", "how": "upper"}]`},
+			{Prog: "function apply(x, m) { return x[m]() }\nBEGIN { print apply(2.5, \"floor\"), apply(2.5, \"ceil\"), apply(2.5, \"round\"), apply(-2.5, \"floor\"), apply(\"Ab\", \"upper\"), apply(\"Ab\", \"lower\"), apply(\"Ab\", \"length\"), apply([2, 1], \"sort\"), apply([2, 1], \"pop\") }\n"},
+		}),
 		textFam("C20", "names and index values met far from the start", []textProg{
 			{Prog: "function bump(num) { return num + 1 }\nfunction walk(n) { if (n == 0) { return bump(num(\"41\")) } return walk(n - 1) }\nBEGIN { print walk(0), walk(60), walk(100), walk(1000) }\n"},
 			{Prog: "function count(total) { down(40); return total }\nfunction down(n) { if (n == 0) { leaf(); return 0 } return down(n - 1) }\nfunction leaf() { total = total + 1 }\nBEGIN { total = 100; print count(0), total }\n"},
